@@ -8,7 +8,7 @@ CONSTANTS
   Conns = {"c1", "c2"}
   Keys = {"A", "B"}
   KeyOf <- MC_KeyOf
-  SvcScript <- MC_ScriptNone
+  Script = "none"
   Causes = {"close", "disc_id", "disc_key", "shutdown"}
   QuiescentEnv = TRUE
   Paths = {"challenge"}
